@@ -105,10 +105,10 @@ def hook_reopen(eng, i, op):
                               {"op": op, "created_with": w.cfg}, i)
                 return
             # all existing data visible and addressed as before: the ordinary state check follows
+            n0 = len(eng.res.violations)
             eng.check_state(op, None, i)
-            if eng.res.violations:
-                for v in eng.res.violations:
-                    v.props.add("C14")
+            for v in eng.res.violations[n0:]:
+                v.props.add("C14")
     finally:
         if saved is not None:
             with seam.passthrough():
